@@ -145,8 +145,7 @@ where
                     buf,
                     total,
                 }) => loop {
-                    let buf_refmut: &mut [u8] = unsafe { mem::transmute(&mut buf[*idx..]) };
-                    let mut readbuf_refmut = ReadBuf::new(buf_refmut);
+                    let mut readbuf_refmut = ReadBuf::uninit(&mut buf[*idx..]);
                     let size = match Pin::new(&mut *reader).poll_read(cx, &mut readbuf_refmut) {
                         Poll::Ready(Ok(())) => {
                             let size = readbuf_refmut.filled().len();
